@@ -33,7 +33,7 @@ def _grid(n, prefix="p"):
     return ps, dom
 
 
-def replay_pp(model, n=3, mode="reference", labelled=False, pdtype="f8"):
+def replay_pp(model, n=3, mode="reference", labelled=False, pdtype="f8", krw_zero_row=None):
     import numpy as np
     from bluebonnet.flow import flowproperties as fp
     names = [f"p{k}" for k in range(n)] + [f"So{k}" for k in range(n)] + list(RHO) + ["scale"]
@@ -43,6 +43,14 @@ def replay_pp(model, n=3, mode="reference", labelled=False, pdtype="f8"):
     kr = {k: uf_callable(model, k, 0.5) for k in KR_FUNCS}
     p = np.array([m[f"p{k}"] for k in range(n)])
     so = np.array([m[f"So{k}"] for k in range(n)])
+    if krw_zero_row is not None:
+        # water immobile at the saturation of one row (a Corey curve with a critical saturation), mobile elsewhere
+        if len(set(np.round(so, 12).tolist())) < n:
+            so = np.linspace(0.3, 0.8, n)
+        s0 = float(so[krw_zero_row])
+        base_w = kr["krw"]
+        kr["krw"] = lambda s: np.where(np.isclose(s, s0, rtol=0, atol=1e-12), 0.0, np.abs(np.vectorize(base_w)(s)) + 0.05) if hasattr(s, "__len__") \
+            else (0.0 if abs(s - s0) <= 1e-12 else abs(base_w(s)) + 0.05)
     if pdtype != "f8":
         # an integer-typed pressure column (pd.read_csv of a 0, 10, 20, ... table, np.arange): whole, strictly increasing psi
         q = [int(round(p[0]))]
@@ -78,7 +86,7 @@ def replay_pp(model, n=3, mode="reference", labelled=False, pdtype="f8"):
     return bad, {"what": f"mobility scaled by {m['scale']!r}: {got2.tolist()} vs {m['scale']!r} x {got.tolist()}", "inputs": m}
 
 
-def job_pp(job, n, labelled=False, pdtype="f8"):
+def job_pp(job, n, labelled=False, pdtype="f8", krw_zero_row=None):
     mod = _load()
     job.encoded(mod, "pseudopressure_threephase")
     job.stub("pvt[...] / kr[...] interpolators: positive uninterpreted functions; scipy cumulative_trapezoid: exact")
@@ -99,6 +107,19 @@ def job_pp(job, n, labelled=False, pdtype="f8"):
     kr = {k: _uf(k) for k in KR_FUNCS}
     parr, soarr = SymArray(ps, "f8"), SymArray(so, "f8")
     ltag = ""
+    if krw_zero_row is not None:
+        # water is immobile at the saturation of one row and mobile at the others (relative-permeability curves have a critical
+        # saturation): the water term is then present at some rows and exactly zero at that one
+        base_w, s0 = kr["krw"], so[krw_zero_row]
+        dom = dom + [T.b_not(T.b_eq0(T.p_sub(P(so[j]), P(s0)))) for j in range(n) if j != krw_zero_row]
+
+        def krw(s):
+            if isinstance(s, SymArray):
+                return SymArray([krw(e) for e in s.d], "f8")
+            return Q(0) if P(s) == P(s0) else base_w(s)
+        kr = dict(kr, krw=krw)
+        ltag = f",krw = 0 at row {krw_zero_row} only"
+        job.bound(water_mobility=f"krw is exactly 0 at the saturation of row {krw_zero_row} and positive at the other rows")
     if pdtype != "f8":
         parr = SymArray(ps, pdtype)
         ltag = f",{ {'i8': 'int64', 'i4': 'int32'}[pdtype] } pressure column"
@@ -116,7 +137,7 @@ def job_pp(job, n, labelled=False, pdtype="f8"):
         if pr.exc is not None:
             if isinstance(pr.exc, (KeyError, IndexError, ValueError, TypeError)):
                 job.prove(f"pp[{n}{ltag}]/raises {type(pr.exc).__name__}[path{k}]", pr.pc, bound=f"{n} rows", note=repr(pr.exc)[:100],
-                          replay=(replay_pp, {"n": n, "mode": "reference", "labelled": labelled, "pdtype": pdtype}))
+                          replay=(replay_pp, {"n": n, "mode": "reference", "labelled": labelled, "pdtype": pdtype, "krw_zero_row": krw_zero_row}))
             else:
                 job.errors.append(f"pseudopressure path {k} raised {pr.exc!r}")
             continue
@@ -134,17 +155,19 @@ def job_pp(job, n, labelled=False, pdtype="f8"):
             d = T.p_sub(P(got.d[j]), P(want[j]))
             neq = T.b_const(False) if d.is_zero() else T.b_or(T.b_lt(tolb, d), T.b_lt(tolb, T.p_neg(d)))
             job.prove(f"pp[{n}{ltag}]/row{j}==trapezoid of documented mobility[path{k}]", pr.pc + [neq], bound=f"{n} rows, any table",
-                      replay=(replay_pp, {"n": n, "mode": "reference", "labelled": labelled, "pdtype": pdtype}))
+                      replay=(replay_pp, {"n": n, "mode": "reference", "labelled": labelled, "pdtype": pdtype, "krw_zero_row": krw_zero_row}))
         job.prove(f"pp[{n}{ltag}]/first row 0[path{k}]", pr.pc + [T.b_not(T.b_eq0(P(got.d[0])))], bound=f"{n} rows",
-                  replay=(replay_pp, {"n": n, "mode": "increasing", "labelled": labelled, "pdtype": pdtype}))
+                  replay=(replay_pp, {"n": n, "mode": "increasing", "labelled": labelled, "pdtype": pdtype, "krw_zero_row": krw_zero_row}))
         job.prove(f"pp[{n}{ltag}]/strictly increasing for positive mobility[path{k}]",
                   pr.pc + [T.b_or(*[T.b_le(P(got.d[j + 1]), P(got.d[j])) for j in range(n - 1)])], bound=f"{n} rows",
-                  replay=(replay_pp, {"n": n, "mode": "increasing", "labelled": labelled, "pdtype": pdtype}))
+                  replay=(replay_pp, {"n": n, "mode": "increasing", "labelled": labelled, "pdtype": pdtype, "krw_zero_row": krw_zero_row}))
         job.prove(f"pp[{n}{ltag}]/homogeneous in mobility[path{k}]",
                   pr.pc + [T.b_or(*[T.b_not(T.b_eq0(T.p_sub(P(got2.d[j]), P(vs["scale"] * got.d[j])))) for j in range(n)])],
-                  bound=f"{n} rows", replay=(replay_pp, {"n": n, "mode": "scale", "labelled": labelled, "pdtype": pdtype}))
+                  bound=f"{n} rows", replay=(replay_pp, {"n": n, "mode": "scale", "labelled": labelled, "pdtype": pdtype, "krw_zero_row": krw_zero_row}))
         job.prove(f"pp[{n}{ltag}]/reach[path{k}]", pr.pc, expect="sat")
     # translator validation
+    if krw_zero_row is not None:
+        return          # the plain variants validate the encoding; here krw is a different function by construction
     import numpy as np
     from bluebonnet.flow import flowproperties as fp
     real_pvt = {"Bo": lambda q: 1.1 + 2e-5 * q, "Bg": lambda q: 5.0 / q, "Bw": lambda q: 1.0 - 3e-6 * q, "Rs": lambda q: 0.1 * q,
@@ -389,7 +412,7 @@ def job_table(job, n, node, kr_desc=False, ref_order=None, effects_only=False):
 
 def jobs(tier):
     out = [("pp3", lambda j: job_pp(j, 3)), ("pp3-labelled", lambda j: job_pp(j, 3, labelled=True)),
-           ("pp3-int-pressure", lambda j: job_pp(j, 3, pdtype="i8"))]
+           ("pp3-int-pressure", lambda j: job_pp(j, 3, pdtype="i8")), ("pp3-krw-zero-at-one-row", lambda j: job_pp(j, 3, krw_zero_row=1))]
     if tier != "quick":
         out += [("pp4", lambda j: job_pp(j, 4)), ("pp5", lambda j: job_pp(j, 5)), ("pp7", lambda j: job_pp(j, 7)), ("pp4-labelled", lambda j: job_pp(j, 4, labelled=True)),
                 ("table4-node1", lambda j: job_table(j, 4, 1)), ("table4-node3", lambda j: job_table(j, 4, 3)), ("table4-node2-kr-descending", lambda j: job_table(j, 4, 2, True)),
